@@ -10,8 +10,11 @@ fn repr_cmp_same_base<const B: Word, const ABS: bool>(
         canonical_inf(lhs.significand.v(), lhs.exponent as int), canonical_inf(rhs.significand.v(), rhs.exponent as int),
         // the precisions, when given, are those of the FBig values the reprs come from: a value of limited precision p
         // carries at most p + 1 digits (C03: "no result carries more than p+1 significant digits").  The precision
-        // shortcut (case 4) is UNSOUND without this -- see the report: FBig values with more digits are reachable through
-        // `with_precision` on a source of unlimited precision.
+        // shortcut (case 4) is UNSOUND without this.  Every public producer guarantees it: constructors set the precision
+        // from the digit count, arithmetic results have at most p + 1 digits (units float_mul/add/sqrt/div), and
+        // `with_precision` rounds a source of unlimited precision since /repo commit 73390f4 (before it, values with
+        // more digits were reachable and `cmp` disagreed with the mathematical order).  The only remaining door is
+        // `FBig::from_repr`, whose documented requirement (a debug_assert!) is digits <= precision.
         precision matches Some(pp) ==>
             (pp.0 != 0 && pp.1 != 0 && !is_inf(lhs.significand.v(), lhs.exponent as int) && !is_inf(rhs.significand.v(), rhs.exponent as int)
                 ==> ndigits(B as int, lhs.significand.v()) <= pp.0 + 1 && ndigits(B as int, rhs.significand.v()) <= pp.1 + 1)
